@@ -3,6 +3,7 @@
 import json, subprocess
 checks = {
  "C01": ("every single-field definition (message x field number x base-type byte x size x byte order x data) is decided by the solver per profile message: rejected by validation or decoded without any panic of Go or of the reflection model; bounded whole runs of the entry points on short symbolic streams", "§5/C01"),
+ "C02": ("single-field definitions: every profile message x listed field x compatible (base type, size) x both byte orders x all data bytes, decoded by the real record parser and compared by the solver with a reference decoder written in the harness; all other fields compared with the all-invalid constructor", "§5/C02"),
  "C03": ("all 256 file types in one symbolic run; one add step per (file type, message) from a symbolic container pre-state with the slot chosen by an oracle computed from the Go types", "§5/C03"),
  "C04": ("GF(2) lemmas on the real updateByte over all states/bytes/patterns; header verdicts of the four APIs over all header bytes; direct bursts on short frames", "§5/C04"),
  "C12": ("step lemma over all 2^32 reference timestamps x 32 offsets x 256 header bytes, conversions over all 2^32 field values, short sequences through the real record parser", "§5/C12"),
@@ -14,7 +15,6 @@ checks = {
  "C20": ("every generated type's real String method with the receiver symbolic over its full width against the constant table read from go/types", "§5/C20"),
 }
 na = {
- "C02": "not yet claimed in this commit: value-level differential harness (H02a) under construction",
  "C05": "not yet claimed in this commit: encoder harnesses (M-binary-write) under construction",
  "C06": "not yet claimed in this commit: depends on the encoder harnesses",
  "C07": "not yet claimed in this commit: depends on the encoder harnesses",
